@@ -182,20 +182,24 @@ pub fn run(ctx: &mut Ctx) {
         // half of the scenarios put all connections between a small set of hosts (same client
         // address with different ports, same server address/port), the other half use unrelated hosts
         let shared_hosts = s % 2 == 1;
-        let conns: Vec<Conn> = (0..nconn)
-            .map(|i| {
-                let kind = *r.pick(&KINDS);
-                let base = scenario::T0 + r.below(2000);
-                let ep = if shared_hosts {
-                    let c = [10, 77, (s % 250) as u8, 1 + r.below(2) as u8];
-                    let sv = [172, 20, (s % 250) as u8, 1 + r.below(2) as u8];
-                    Some(crate::pkt::Endpoints::v4(c, 2000 + (i as u16) * 37 + (r.below(30) as u16), sv, *r.pick(&[80u16, 443])))
-                } else {
-                    None
-                };
-                scenario::gen_conn_ep(&mut r, base_id + i as u64, kind, base, ep)
-            })
-            .collect();
+        let mut conns: Vec<Conn> = Vec::with_capacity(nconn);
+        for i in 0..nconn {
+            let kind = *r.pick(&KINDS);
+            let base = scenario::T0 + r.below(2000);
+            let ep = if shared_hosts && i % 2 == 1 && r.chance(1, 2) {
+                // the mirror image of the previous connection: the same two hosts and the same two
+                // port numbers, associated the other way round (X:p -> Y:q and Y:p -> X:q)
+                let p = &conns[i - 1].ep;
+                Some(crate::pkt::Endpoints { client: p.server, server: p.client, cport: p.cport, sport: p.sport })
+            } else if shared_hosts {
+                let c = [10, 77, (s % 250) as u8, 1 + r.below(2) as u8];
+                let sv = [172, 20, (s % 250) as u8, 1 + r.below(2) as u8];
+                Some(crate::pkt::Endpoints::v4(c, 2000 + (i as u16) * 37 + (r.below(30) as u16), sv, *r.pick(&[80u16, 443])))
+            } else {
+                None
+            };
+            conns.push(scenario::gen_conn_ep(&mut r, base_id + i as u64, kind, base, ep));
+        }
         let with_db = s % 2 == 0 && !ctx.miri(); // loading the bundled database costs ~50 s under Miri
         let started = std::time::Instant::now();
         for which in WHICH {
